@@ -17,7 +17,7 @@
 //! plainly, by one walker generic over the reader.
 
 use super::{apply, mask, norm, render_ops, render_val, RelocMap, Slice};
-use crate::asm::{get_uint, Enc, Field};
+use crate::asm::{Enc, Field};
 use crate::gen::info::{AbbrevDecl, AbbrevTable, AttrDecl, AttrVal, Built, InfoCfg, Item, Sec, TypeOffset, UnitCfg, UnitKind, Val};
 use crate::model::forms as f;
 use crate::rt::{fnv, hex, Ctx, Rng};
@@ -50,6 +50,31 @@ pub const MUST_OBSERVE: &[&str] = &[
     "asm.unit.debug_types",
     "asm.unit.v5_type",
     "asm.unit.v5_skeleton",
+    "asm.tables.str_offsets.equal",
+    "asm.tables.addr.equal",
+    "asm.tables.rnglists.equal",
+    "asm.tables.loclists.equal",
+    "asm.tables.aranges.equal",
+    "asm.tables.pubnames.equal",
+    "asm.tables.sites.visited",
+    "asm.tables.site.str_offsets.entry",
+    "asm.tables.site.addr.entry",
+    "asm.tables.site.rnglists.start_end",
+    "asm.tables.site.rnglists.base_address",
+    "asm.tables.site.rnglists.start_length",
+    "asm.tables.site.loclists.start_end",
+    "asm.tables.site.loclists.base_address",
+    "asm.tables.site.loclists.DW_OP_addr",
+    "asm.tables.site.info.str_offsets_base",
+    "asm.tables.site.info.addr_base",
+    "asm.tables.site.info.rnglists_base",
+    "asm.tables.site.info.loclists_base",
+    "asm.tables.site.info.ranges.sec_offset",
+    "asm.tables.site.info.location.sec_offset",
+    "asm.tables.site.aranges.debug_info_offset",
+    "asm.tables.site.aranges.address",
+    "asm.tables.site.pubnames.debug_info_offset",
+    "asm.tables.site.pubtypes.debug_info_offset",
 ];
 
 // attribute names (DWARF 5 table 7.5 and GNU extensions)
@@ -725,9 +750,631 @@ pub fn run(ctx: &mut Ctx) {
             judge(ctx, "asm.rand", &case);
         }
     }
+    run_tables(ctx);
 }
 
-#[allow(dead_code)]
-fn _unused(_: &[u8]) -> u64 {
-    get_uint(&[0], true, 1)
+// ================================================================ index forms and offset tables (DWARF 5)
+//
+// One v5 unit whose root names its bases; `.debug_str_offsets` / `.debug_addr` /
+// `.debug_rnglists` / `.debug_loclists` tables start behind filler so that a relocated base
+// still selects the table; every string offset entry, address entry, inline list address,
+// `DW_OP_addr` inside a location list entry, the `.debug_aranges` and `.debug_pubnames` /
+// `.debug_pubtypes` unit offsets and the arange addresses are sites.
+
+#[derive(Default)]
+struct TSec {
+    raw: Vec<u8>,
+    sites: Vec<(usize, u8, bool, u64, &'static str)>,
+}
+
+struct TCase {
+    enc: Enc,
+    secs: BTreeMap<&'static str, TSec>,
+    desc: String,
+}
+
+/// Emit an address field whose value after relocation is `fin` (raw = fin - addend, wrapping).
+fn addr_site(a: &mut crate::asm::Asm, sec: &mut TSec, enc: Enc, addend: u64, fin: u64, what: &'static str) {
+    sec.sites.push((a.len(), enc.addr, true, addend & enc.addr_mask(), what));
+    a.uint(enc.addr as usize, fin.wrapping_sub(addend) & enc.addr_mask());
+}
+
+fn build_tables(r: &mut Rng, enc: Enc) -> TCase {
+    use crate::asm::Asm;
+    let word = enc.word();
+    let wn = word as usize;
+    let an = enc.addr as usize;
+    let small = enc.addr == 1;
+    let mut k = 0u64;
+    // unique small addends (structural offsets), unique addends for addresses
+    let mut next = |max: u64| -> u64 {
+        k += 1;
+        1 + (k * 5 + 2) % max.max(1)
+    };
+    let mut used: BTreeSet<u64> = BTreeSet::new();
+    let mut uniq = |r: &mut Rng, max: u64, used: &mut BTreeSet<u64>| -> u64 {
+        for _ in 0..200 {
+            let a = 1 + r.below(max);
+            if used.insert(a) {
+                return a;
+            }
+        }
+        1
+    };
+    let _ = &mut next;
+    let nstr = 2 + r.usize(5);
+    let naddr = 3 + r.usize(5);
+    let nrl = 1 + r.usize(3);
+    let nll = 1 + r.usize(2);
+    let addr_val = |r: &mut Rng| -> u64 { if small { r.below(0x30) } else { r.below(0x3000) } };
+    let addr_add_max: u64 = if small { 0x40 } else { 0x4000 };
+
+    // ---- .debug_str
+    let mut strs = TSec::default();
+    let pad_str = 48usize;
+    let mut a = Asm::new(enc.le);
+    for i in 0..pad_str {
+        a.u8(b'A' + (i % 20) as u8);
+    }
+    a.u8(0);
+    let mut str_offs = vec![];
+    for i in 0..nstr {
+        str_offs.push(a.len() as u64);
+        a.cstr(format!("name{i}").as_bytes());
+    }
+    strs.raw = a.buf;
+
+    // ---- .debug_str_offsets
+    let mut so = TSec::default();
+    let mut a = Asm::new(enc.le);
+    let lead = 8 * (1 + r.usize(4));
+    for _ in 0..lead {
+        a.u8(0xee);
+    }
+    let m = a.begin_length(enc.fmt64);
+    a.u16(5).u16(0);
+    let so_base = a.len() as u64;
+    let mut add_used = BTreeSet::new();
+    for i in 0..nstr {
+        let ad = uniq(r, pad_str as u64, &mut add_used);
+        so.sites.push((a.len(), word, false, ad, "str_offsets.entry"));
+        a.uint(wn, str_offs[i].wrapping_sub(ad));
+    }
+    a.end_length(m);
+    so.raw = a.buf;
+
+    // ---- .debug_addr
+    let mut da = TSec::default();
+    let mut a = Asm::new(enc.le);
+    let lead = 8 * (1 + r.usize(4));
+    for _ in 0..lead {
+        a.u8(0xee);
+    }
+    let m = a.begin_length(enc.fmt64);
+    a.u16(5).u8(enc.addr).u8(0);
+    let da_base = a.len() as u64;
+    let mut au = BTreeSet::new();
+    for i in 0..naddr as u64 {
+        // relocated values ascend strictly, so that (i, j) with i < j is a non-empty range
+        let ad = uniq(r, addr_add_max.min(enc.addr_mask()), &mut au);
+        let fin = if small { 8 + 6 * i + r.below(4) } else { 0x100 + 0x100 * i + r.below(0x80) };
+        addr_site(&mut a, &mut da, enc, ad, fin, "addr.entry");
+    }
+    a.end_length(m);
+    da.raw = a.buf;
+
+    // ---- .debug_rnglists: offsets table + lists
+    let mut rl = TSec::default();
+    let mut a = Asm::new(enc.le);
+    let lead = 8 * (1 + r.usize(4));
+    for _ in 0..lead {
+        a.u8(0xee);
+    }
+    let m = a.begin_length(enc.fmt64);
+    a.u16(5).u8(enc.addr).u8(0).u32(nrl as u32);
+    let rl_base = a.len() as u64;
+    let table_at = a.len();
+    for _ in 0..nrl {
+        a.uint(wn, 0);
+    }
+    let mut rl_list_offs = vec![];
+    for i in 0..nrl {
+        let off = a.len() as u64 - rl_base;
+        rl_list_offs.push(a.len() as u64);
+        a.patch_uint(table_at + i * wn, wn, off);
+        for _ in 0..1 + r.usize(5) {
+            match r.below(7) {
+                0 => {
+                    a.u8(1).uleb(r.below(naddr as u64));
+                }
+                1 => {
+                    a.u8(2).uleb(r.below(naddr as u64)).uleb(r.below(naddr as u64));
+                }
+                2 => {
+                    a.u8(3).uleb(r.below(naddr as u64)).uleb(1 + r.below(0x20));
+                }
+                3 => {
+                    let b = r.below(0x10);
+                    a.u8(4).uleb(b).uleb(b + 1 + r.below(0x10));
+                }
+                4 => {
+                    a.u8(5);
+                    let (ad, fin) = (uniq(r, addr_add_max.min(enc.addr_mask()), &mut au), addr_val(r));
+                    addr_site(&mut a, &mut rl, enc, ad, fin, "rnglists.base_address");
+                }
+                5 => {
+                    a.u8(6);
+                    let (ad, fin) = (uniq(r, addr_add_max.min(enc.addr_mask()), &mut au), addr_val(r));
+                    addr_site(&mut a, &mut rl, enc, ad, fin, "rnglists.start_end");
+                    let (ad, fin) = (uniq(r, addr_add_max.min(enc.addr_mask()), &mut au), fin + 1 + r.below(0x10));
+                    addr_site(&mut a, &mut rl, enc, ad, fin, "rnglists.start_end");
+                }
+                _ => {
+                    a.u8(7);
+                    let (ad, fin) = (uniq(r, addr_add_max.min(enc.addr_mask()), &mut au), addr_val(r));
+                    addr_site(&mut a, &mut rl, enc, ad, fin, "rnglists.start_length");
+                    a.uleb(1 + r.below(0x20));
+                }
+            }
+        }
+        a.u8(0);
+    }
+    a.end_length(m);
+    rl.raw = a.buf;
+
+    // ---- .debug_loclists
+    let mut ll = TSec::default();
+    let mut a = Asm::new(enc.le);
+    let lead = 8 * (1 + r.usize(4));
+    for _ in 0..lead {
+        a.u8(0xee);
+    }
+    let m = a.begin_length(enc.fmt64);
+    a.u16(5).u8(enc.addr).u8(0).u32(nll as u32);
+    let ll_base = a.len() as u64;
+    let table_at = a.len();
+    for _ in 0..nll {
+        a.uint(wn, 0);
+    }
+    let mut ll_list_offs = vec![];
+    for i in 0..nll {
+        let off = a.len() as u64 - ll_base;
+        ll_list_offs.push(a.len() as u64);
+        a.patch_uint(table_at + i * wn, wn, off);
+        for _ in 0..1 + r.usize(4) {
+            match r.below(5) {
+                0 => {
+                    a.u8(1).uleb(r.below(naddr as u64));
+                    continue;
+                }
+                1 => {
+                    let i = r.below(naddr as u64 - 1);
+                    let j = i + 1 + r.below(naddr as u64 - 1 - i);
+                    a.u8(2).uleb(i).uleb(j);
+                }
+                2 => {
+                    a.u8(3).uleb(r.below(naddr as u64)).uleb(1 + r.below(0x20));
+                }
+                3 => {
+                    a.u8(6);
+                    let (ad, fin) = (uniq(r, addr_add_max.min(enc.addr_mask()), &mut au), addr_val(r));
+                    addr_site(&mut a, &mut ll, enc, ad, fin, "loclists.base_address");
+                    continue;
+                }
+                _ => {
+                    a.u8(7);
+                    let (ad, fin) = (uniq(r, addr_add_max.min(enc.addr_mask()), &mut au), addr_val(r));
+                    addr_site(&mut a, &mut ll, enc, ad, fin, "loclists.start_end");
+                    let (ad, fin) = (uniq(r, addr_add_max.min(enc.addr_mask()), &mut au), fin + 1 + r.below(0x10));
+                    addr_site(&mut a, &mut ll, enc, ad, fin, "loclists.start_end");
+                }
+            }
+            // counted location description: DW_OP_addr <a>
+            a.uleb(1 + an as u64).u8(0x03);
+            let (ad, fin) = (uniq(r, addr_add_max.min(enc.addr_mask()), &mut au), addr_val(r));
+            addr_site(&mut a, &mut ll, enc, ad, fin, "loclists.DW_OP_addr");
+        }
+        a.u8(0);
+    }
+    a.end_length(m);
+    ll.raw = a.buf;
+
+    // ---- .debug_abbrev / .debug_info
+    let name_form = *r.pick(&[f::F_STRX, f::F_STRX1, f::F_STRX2, f::F_STRX3, f::F_STRX4]);
+    let addr_form = *r.pick(&[f::F_ADDRX, f::F_ADDRX1, f::F_ADDRX2, f::F_ADDRX3, f::F_ADDRX4]);
+    let list_sec_offset = r.chance(1, 3);
+    let list_form = if list_sec_offset { f::F_SEC_OFFSET } else { f::F_RNGLISTX };
+    let loc_form = if list_sec_offset { f::F_SEC_OFFSET } else { f::F_LOCLISTX };
+    let mut ab = Asm::new(enc.le);
+    ab.uleb(1).uleb(0x11).u8(1);
+    for (n, fm) in [(AT_STR_OFFSETS_BASE, f::F_SEC_OFFSET), (AT_ADDR_BASE, f::F_SEC_OFFSET), (AT_RNGLISTS_BASE, f::F_SEC_OFFSET), (AT_LOCLISTS_BASE, f::F_SEC_OFFSET), (AT_LOW_PC, addr_form), (AT_NAME, name_form)] {
+        ab.uleb(n as u64).uleb(fm as u64);
+    }
+    ab.u8(0).u8(0);
+    ab.uleb(2).uleb(0x34).u8(0);
+    for (n, fm) in [(AT_NAME, name_form), (AT_LOW_PC, addr_form), (AT_RANGES, list_form), (AT_LOCATION, loc_form)] {
+        ab.uleb(n as u64).uleb(fm as u64);
+    }
+    ab.u8(0).u8(0).u8(0);
+    let mut info = TSec::default();
+    let mut a = Asm::new(enc.le);
+    let m = a.begin_length(enc.fmt64);
+    a.u16(5).u8(1).u8(enc.addr).uint(wn, 0);
+    let emit_idx = |a: &mut Asm, form: u16, v: u64| match f::layout(form, enc) {
+        Some(f::Layout::Fixed(n)) => {
+            a.uint(n, v);
+        }
+        _ => {
+            a.uleb(v);
+        }
+    };
+    a.uleb(1);
+    let mut bu = BTreeSet::new();
+    for (base, what) in [(so_base, "info.str_offsets_base"), (da_base, "info.addr_base"), (rl_base, "info.rnglists_base"), (ll_base, "info.loclists_base")] {
+        let ad = uniq(r, 8, &mut bu);
+        info.sites.push((a.len(), word, false, ad, what));
+        a.uint(wn, base.wrapping_sub(ad));
+    }
+    emit_idx(&mut a, addr_form, r.below(naddr as u64));
+    emit_idx(&mut a, name_form, r.below(nstr as u64));
+    let nchild = nstr.max(naddr).max(nrl).max(nll);
+    for c in 0..nchild {
+        a.uleb(2);
+        emit_idx(&mut a, name_form, (c % nstr) as u64);
+        emit_idx(&mut a, addr_form, (c % naddr) as u64);
+        if list_sec_offset {
+            // cross-section offsets of the lists themselves: keep them pointing at the list
+            let ad = uniq(r, 8, &mut bu);
+            info.sites.push((a.len(), word, false, ad, "info.ranges.sec_offset"));
+            a.uint(wn, rl_list_offs[c % nrl].wrapping_sub(ad));
+            let ad = uniq(r, 8, &mut bu);
+            info.sites.push((a.len(), word, false, ad, "info.location.sec_offset"));
+            a.uint(wn, ll_list_offs[c % nll].wrapping_sub(ad));
+        } else {
+            a.uleb((c % nrl) as u64);
+            a.uleb((c % nll) as u64);
+        }
+    }
+    a.u8(0);
+    a.end_length(m);
+    info.raw = a.buf;
+
+    // ---- .debug_aranges
+    let mut ar = TSec::default();
+    let mut a = Asm::new(enc.le);
+    for _ in 0..1 + r.usize(2) {
+        // a set must start at a multiple of the tuple size for every padding rule to agree
+        if a.len() % (2 * an) != 0 {
+            break;
+        }
+        let start = a.len();
+        let m = a.begin_length(enc.fmt64);
+        a.u16(2);
+        ar.sites.push((a.len(), word, false, uniq(r, 0x4000, &mut bu), "aranges.debug_info_offset"));
+        a.uint(wn, r.below(0x1000));
+        a.u8(enc.addr).u8(0);
+        while (a.len() - start) % (2 * an) != 0 {
+            a.u8(0);
+        }
+        for _ in 0..1 + r.usize(3) {
+            let (ad, fin) = (uniq(r, addr_add_max.min(enc.addr_mask()), &mut au), 1 + addr_val(r));
+            addr_site(&mut a, &mut ar, enc, ad, fin, "aranges.address");
+            a.uint(an, 1 + r.below(0x20));
+        }
+        a.uint(an, 0).uint(an, 0);
+        a.end_length(m);
+    }
+    ar.raw = a.buf;
+
+    // ---- .debug_pubnames / .debug_pubtypes
+    let mut pubs: Vec<TSec> = vec![];
+    for which in 0..2 {
+        let mut p = TSec::default();
+        let mut a = Asm::new(enc.le);
+        for _ in 0..1 + r.usize(2) {
+            let m = a.begin_length(enc.fmt64);
+            a.u16(2);
+            p.sites.push((a.len(), word, false, uniq(r, 0x4000, &mut bu), if which == 0 { "pubnames.debug_info_offset" } else { "pubtypes.debug_info_offset" }));
+            a.uint(wn, r.below(0x1000));
+            a.uint(wn, 0x40 + r.below(0x100));
+            for j in 0..1 + r.usize(3) {
+                a.uint(wn, 0x0b + r.below(0x30));
+                a.cstr(format!("pub{j}").as_bytes());
+            }
+            a.uint(wn, 0);
+            a.end_length(m);
+        }
+        p.raw = a.buf;
+        pubs.push(p);
+    }
+    let pt = pubs.pop().unwrap();
+    let pn = pubs.pop().unwrap();
+
+    let mut secs = BTreeMap::new();
+    let mut abs = TSec::default();
+    abs.raw = ab.buf;
+    secs.insert(".debug_abbrev", abs);
+    secs.insert(".debug_info", info);
+    secs.insert(".debug_str", strs);
+    secs.insert(".debug_str_offsets", so);
+    secs.insert(".debug_addr", da);
+    secs.insert(".debug_rnglists", rl);
+    secs.insert(".debug_loclists", ll);
+    secs.insert(".debug_aranges", ar);
+    secs.insert(".debug_pubnames", pn);
+    secs.insert(".debug_pubtypes", pt);
+    let _ = used;
+    let desc = format!("{} name_form={name_form:#x} addr_form={addr_form:#x} lists_by_sec_offset={list_sec_offset} nstr={nstr} naddr={naddr} nrl={nrl} nll={nll}", enc.label());
+    TCase { enc, secs, desc }
+}
+
+fn walk_tables<R: Reader<Offset = usize>>(get: &dyn Fn(&str) -> R) -> BTreeMap<&'static str, Vec<String>> {
+    let mut res = BTreeMap::new();
+    let mut out = vec![];
+    let d = match gimli::Dwarf::load(|id| -> Result<R, gimli::Error> { Ok(get(id.name())) }) {
+        Ok(d) => d,
+        Err(e) => {
+            res.insert("dwarf", vec![format!("load.err {e:?}")]);
+            return res;
+        }
+    };
+    let mut it = d.units();
+    let mut nu = 0;
+    loop {
+        nu += 1;
+        if nu > 8 {
+            out.push("units.limit".into());
+            break;
+        }
+        let h = match it.next() {
+            Ok(Some(h)) => h,
+            Ok(None) => break,
+            Err(e) => {
+                out.push(format!("units.err {e:?}"));
+                break;
+            }
+        };
+        let unit = match d.unit(h) {
+            Ok(u) => u,
+            Err(e) => {
+                out.push(format!("unit.err {e:?}"));
+                continue;
+            }
+        };
+        out.push(format!("unit bases str_offsets={:?} addr={:?} rnglists={:?} loclists={:?} low_pc={:#x} name={:?}", unit.str_offsets_base, unit.addr_base, unit.rnglists_base, unit.loclists_base, unit.low_pc, unit.name.as_ref().map(super::bytes_of)));
+        let enc = unit.encoding();
+        let mut raw = match unit.entries_raw(None) {
+            Ok(r) => r,
+            Err(e) => {
+                out.push(format!("entries_raw.err {e:?}"));
+                continue;
+            }
+        };
+        let mut n = 0;
+        while !raw.is_empty() {
+            n += 1;
+            if n > 500 {
+                out.push("entries.limit".into());
+                break;
+            }
+            let ab = match raw.read_abbreviation() {
+                Ok(Some(a)) => a,
+                Ok(None) => {
+                    out.push("null".into());
+                    continue;
+                }
+                Err(e) => {
+                    out.push(format!("abbrev.err {e:?}"));
+                    break;
+                }
+            };
+            let mut failed = false;
+            for spec in ab.attributes() {
+                let a = match raw.read_attribute(*spec) {
+                    Ok(a) => a,
+                    Err(e) => {
+                        out.push(format!(" attr.err {e:?}"));
+                        failed = true;
+                        break;
+                    }
+                };
+                let v = a.value();
+                out.push(format!(" at {:#x} raw {} val {}", a.name().0, render_val(&a.raw_value()), render_val(&v)));
+                use gimli::AttributeValue as A;
+                match &v {
+                    A::DebugStrOffsetsIndex(_) | A::DebugStrRef(_) => out.push(format!("  str {}", d.attr_string(&unit, v.clone()).map(|s| super::bytes_of(&s)).unwrap_or_else(|e| format!("E{e:?}")))),
+                    A::DebugAddrIndex(_) => out.push(format!("  address {:x?}", d.attr_address(&unit, v.clone()))),
+                    A::RangeListsRef(_) | A::DebugRngListsIndex(_) => match d.attr_ranges(&unit, v.clone()) {
+                        Ok(Some(mut it)) => {
+                            for _ in 0..100 {
+                                match it.next() {
+                                    Ok(Some(r)) => out.push(format!("  range {:#x}..{:#x}", r.begin, r.end)),
+                                    Ok(None) => break,
+                                    Err(e) => {
+                                        out.push(format!("  ranges.err {e:?}"));
+                                        break;
+                                    }
+                                }
+                            }
+                        }
+                        Ok(None) => out.push("  ranges none".into()),
+                        Err(e) => out.push(format!("  attr_ranges.err {e:?}")),
+                    },
+                    A::LocationListsRef(_) | A::DebugLocListsIndex(_) => match d.attr_locations(&unit, v.clone()) {
+                        Ok(Some(mut it)) => {
+                            for _ in 0..100 {
+                                match it.next() {
+                                    Ok(Some(l)) => {
+                                        out.push(format!("  loc {:#x}..{:#x} len {}", l.range.begin, l.range.end, l.data.0.len()));
+                                        render_ops(&l.data, enc, &mut out, 0);
+                                    }
+                                    Ok(None) => break,
+                                    Err(e) => {
+                                        out.push(format!("  locs.err {e:?}"));
+                                        break;
+                                    }
+                                }
+                            }
+                        }
+                        Ok(None) => out.push("  locs none".into()),
+                        Err(e) => out.push(format!("  attr_locations.err {e:?}")),
+                    },
+                    _ => {}
+                }
+            }
+            if failed {
+                break;
+            }
+        }
+    }
+    res.insert("dwarf", norm(out));
+
+    // .debug_aranges
+    let mut out = vec![];
+    let mut hs = d.debug_aranges.headers();
+    for _ in 0..20 {
+        match hs.next() {
+            Ok(Some(h)) => {
+                out.push(format!("set @{:?} len={:?} enc={:?} info={:?}", h.offset(), h.length(), h.encoding(), h.debug_info_offset()));
+                let mut es = h.entries();
+                for _ in 0..50 {
+                    match es.next_raw() {
+                        Ok(Some(e)) => out.push(format!(" arange {:#x}+{:#x}", e.address(), e.length())),
+                        Ok(None) => break,
+                        Err(e) => {
+                            out.push(format!(" entries.err {e:?}"));
+                            break;
+                        }
+                    }
+                }
+            }
+            Ok(None) => break,
+            Err(e) => {
+                out.push(format!("headers.err {e:?}"));
+                break;
+            }
+        }
+    }
+    res.insert("aranges", norm(out));
+
+    // .debug_pubnames / .debug_pubtypes
+    let mut out = vec![];
+    let pn = gimli::DebugPubNames::from(get(".debug_pubnames"));
+    let mut it = pn.items();
+    for _ in 0..60 {
+        match it.next() {
+            Ok(Some(e)) => out.push(format!("pubname unit={:?} die={:?} name={}", e.unit_header_offset(), e.die_offset(), super::bytes_of(e.name()))),
+            Ok(None) => break,
+            Err(e) => {
+                out.push(format!("pubnames.err {e:?}"));
+                break;
+            }
+        }
+    }
+    let pt = gimli::DebugPubTypes::from(get(".debug_pubtypes"));
+    let mut it = pt.items();
+    for _ in 0..60 {
+        match it.next() {
+            Ok(Some(e)) => out.push(format!("pubtype unit={:?} die={:?} name={}", e.unit_header_offset(), e.die_offset(), super::bytes_of(e.name()))),
+            Ok(None) => break,
+            Err(e) => {
+                out.push(format!("pubtypes.err {e:?}"));
+                break;
+            }
+        }
+    }
+    res.insert("pubnames", norm(out));
+    res
+}
+
+fn judge_tables(ctx: &mut Ctx, case: &TCase) {
+    ctx.eval();
+    let enc = case.enc;
+    let endian = enc.endian();
+    let input = || json!({"enc": enc.label(), "desc": case.desc, "sections": case.secs.iter().map(|(k, v)| (k.to_string(), json!({"raw": hex(&v.raw), "sites": format!("{:x?}", v.sites)}))).collect::<serde_json::Map<_, _>>()});
+    let input: &dyn Fn() -> serde_json::Value = &input;
+    ctx.nontrivial(fnv(case.desc.as_bytes()) ^ case.secs.values().fold(0, |h, s| h ^ fnv(&s.raw)));
+    let mut maps: BTreeMap<&'static str, RelocMap> = BTreeMap::new();
+    let mut pre: BTreeMap<&'static str, Vec<u8>> = BTreeMap::new();
+    for (name, s) in &case.secs {
+        let mut m = RelocMap::default();
+        let mut b = s.raw.clone();
+        for (off, size, _, addend, _) in &s.sites {
+            if m.map.insert(*off, (*size, *addend & mask(*size))).is_some() || !apply(&mut b, enc.le, *off, *size, *addend & mask(*size)) {
+                ctx.harness_error("c18_asm tables: overlapping or out-of-section site");
+                return;
+            }
+        }
+        maps.insert(name, m);
+        pre.insert(name, b);
+    }
+    let empty_map = RelocMap::default();
+    let empty: Vec<u8> = vec![];
+    let Some(plain) = ctx.guard("asm.tables.plain", input, || walk_tables::<Slice<'_>>(&|n: &str| gimli::EndianSlice::new(pre.get(n).unwrap_or(&empty), endian))) else { return };
+    let Some(reloc) = ctx.guard("asm.tables.relocate_reader", input, || walk_tables::<RR<'_>>(&|n: &str| mk(case.secs.get(n).map_or(&empty[..], |s| &s.raw[..]), maps.get(n).unwrap_or(&empty_map), endian))) else { return };
+    let mut all_equal = true;
+    for (part, a) in &plain {
+        let empty_v = vec![];
+        let b = reloc.get(part).unwrap_or(&empty_v);
+        if a == b {
+            continue;
+        }
+        all_equal = false;
+        let i = a.iter().zip(b.iter()).position(|(x, y)| x != y).unwrap_or(a.len().min(b.len()));
+        let ctxl = |v: &Vec<String>| v.iter().skip(i.saturating_sub(2)).take(4).cloned().collect::<Vec<_>>();
+        ctx.fail(&format!("asm.tables.read.{part}"), &format!("index forms / offset tables ({}): RelocateReader parse of {part} differs from the parse of the pre-applied copy at dump line {i}: pre-applied {:?} / relocating {:?}", enc.label(), ctxl(a), ctxl(b)), input);
+    }
+    if !all_equal {
+        return;
+    }
+    for k in ["str_offsets", "addr", "rnglists", "loclists", "aranges", "pubnames"] {
+        ctx.obs(&format!("asm.tables.{k}.equal"));
+    }
+    let complete = !plain.values().flatten().any(|l| l.contains(".err") || l.contains(".limit") || l.contains("Err("));
+    if !complete {
+        ctx.obs("asm.tables.incomplete_parse");
+        return;
+    }
+    let mut ok = true;
+    for (name, s) in &case.secs {
+        let Some(m) = maps.get(name) else { continue };
+        let log = m.log.borrow();
+        let seen: BTreeMap<usize, bool> = log.iter().map(|(o, a)| (*o, *a)).collect();
+        for (off, size, is_addr, _, what) in &s.sites {
+            match seen.get(off) {
+                None => {
+                    ok = false;
+                    ctx.fail(&format!("asm.tables.unvisited.{what}"), &format!("{name}: the relocatable field at {off:#x} (size {size}, {what}) was consumed by the parse but never passed to relocate_address/relocate_offset"), input);
+                }
+                Some(a) if a != is_addr => {
+                    ok = false;
+                    ctx.fail(&format!("asm.tables.wrong_hook.{what}"), &format!("{name}: the field at {off:#x} ({what}) went through the wrong relocate hook"), input);
+                }
+                Some(_) => ctx.obs(&format!("asm.tables.site.{what}")),
+            }
+        }
+        for (o, _) in log.iter() {
+            if !m.map.contains_key(o) {
+                ctx.obs(&format!("asm.tables.passthrough{name}"));
+            }
+        }
+    }
+    if ok {
+        ctx.obs("asm.tables.sites.visited");
+    }
+    ctx.sample("asm.tables", || json!({"desc": case.desc, "dump": plain.get("dwarf").map(|v| v.iter().take(14).cloned().collect::<Vec<_>>())}));
+}
+
+fn run_tables(ctx: &mut Ctx) {
+    let n = ctx.size(200, 8_000, 6);
+    for i in 0..n {
+        if !ctx.want("asm.tables", i) {
+            continue;
+        }
+        let mut r = ctx.rng("asm.tables", i);
+        // version 5 only: 2 byte orders x 2 formats x 4 address sizes
+        let enc = Enc::new(i % 2 == 0, (i / 2) % 2 == 0, 5, [1u8, 2, 4, 8][((i / 4) % 4) as usize]);
+        let case = build_tables(&mut r, enc);
+        judge_tables(ctx, &case);
+    }
 }
